@@ -2140,7 +2140,10 @@ def stub_pool_get(ex, args, guard, ins):
                         L = var(nm + '_len', 8)
                         b0 = var(nm + '_b0', 8)
                         b1 = var(nm + '_b1', 8)
-                        o.val.e[i] = Str([(Eq(L, bv(0, 8)), ()), (Eq(L, bv(1, 8)), (b0,)), (Not(Or(Eq(L, bv(0, 8)), Eq(L, bv(1, 8)))), (b0, b1))])
+                        o.val.e[i] = Str([(Eq(L, bv(0, 8)), ()), (Eq(L, bv(1, 8)), (b0,)), (Eq(L, bv(2, 8)), (b0, b1))])
+                        ex.assume(bvcmp('ule', L, bv(2, 8)))
+                        # what an earlier call left there was cut at '/' (only the last part may contain one)
+                        ex.assume(And(Not(Eq(b0, bv(47, 8))), Not(Eq(b1, bv(47, 8)))))
                     elif isinstance(e, T):
                         o.val.e[i] = var('pool%d_%d' % (k, i), e.sort)
         else:
@@ -2207,6 +2210,7 @@ STUBS = {
     'verifharness/verif.Table': stub_table,
     'verifharness/verif.Observe': stub_observe,
     'verifharness/verif.Havoc': stub_havoc,
+    'verifharness/verif.PrimePool': lambda ex, a, g, i: None,
     'verifharness/verif.Param': stub_param,
     'verifharness/verif.Functional': stub_relation('functional'),
     'verifharness/verif.Monotone': stub_relation('monotone'),
